@@ -339,9 +339,13 @@ impl<K: CacheKey + 'static> DiskCache<K> {
                 .truncate(true)
                 .open(&temp_path)
                 .map_err(CacheError::Io)?;
+            #[cfg(feature = "verif-hooks")]
+            crate::verif_hooks::sched_point("disk.write_file.after_open");
 
             file.write_all(data).map_err(CacheError::Io)?;
             file.flush().map_err(CacheError::Io)?;
+            #[cfg(feature = "verif-hooks")]
+            crate::verif_hooks::sched_point("disk.write_file.after_write");
 
             // Force data to disk for durability in cache operations
             #[cfg(unix)]
@@ -356,6 +360,8 @@ impl<K: CacheKey + 'static> DiskCache<K> {
             }
         }
 
+        #[cfg(feature = "verif-hooks")]
+        crate::verif_hooks::sched_point("disk.write_file.after_fsync");
         // Atomic rename
         fs::rename(&temp_path, path).map_err(CacheError::Io)?;
 
@@ -489,9 +495,13 @@ impl<K: CacheKey + 'static> AsyncCache<K> for DiskCache<K> {
                 .map_err(|_| CacheError::LockTimeout("index read lock".to_string()))?;
             index.get(key).cloned()
         };
+        #[cfg(feature = "verif-hooks")]
+        crate::verif_hooks::sched_point("disk.get.after_index_read");
 
         if let Some(entry) = entry_info {
             if entry.is_expired() {
+                #[cfg(feature = "verif-hooks")]
+                crate::verif_hooks::sched_point("disk.get.expired.before_write_lock");
                 // Remove expired entry
                 if let Ok(mut index) = self.index.write() {
                     index.remove(key);
@@ -510,6 +520,8 @@ impl<K: CacheKey + 'static> AsyncCache<K> for DiskCache<K> {
             // Read file content
             match self.read_file(&entry.file_path).await {
                 Ok(data) => {
+                    #[cfg(feature = "verif-hooks")]
+                    crate::verif_hooks::sched_point("disk.get.after_read_file");
                     // Update access time
                     if let Ok(mut index) = self.index.write()
                         && let Some(entry) = index.get_mut(key)
@@ -537,6 +549,8 @@ impl<K: CacheKey + 'static> AsyncCache<K> for DiskCache<K> {
             // Not in index - try to find file on disk as fallback
             let file_path = self.get_file_path(key);
             if file_path.exists() {
+                #[cfg(feature = "verif-hooks")]
+                crate::verif_hooks::sched_point("disk.get.fallback.after_exists");
                 // Found file on disk - try to read it and add to index
                 match self.read_file(&file_path).await {
                     Ok(data) => {
@@ -589,6 +603,8 @@ impl<K: CacheKey + 'static> AsyncCache<K> for DiskCache<K> {
 
         // Write data to disk
         self.write_file(&file_path, &value).await?;
+        #[cfg(feature = "verif-hooks")]
+        crate::verif_hooks::sched_point("disk.put.after_write_file");
 
         // Update index
         {
